@@ -355,7 +355,13 @@ class TrimWhitespaces(FullAstVisitor):
         if not node.whitespaces.value:
             node.whitespaces.value = '\n'
         elif force and not node.whitespaces.value.endswith('\n'):
-            node.whitespaces.value += '\n'
+            # Do not append a newline after the indentation that follows a
+            # newline (e.g. after a line continuation at the end of the file)
+            stripped = node.whitespaces.value.rstrip(' \t')
+            if stripped.endswith('\n'):
+                node.whitespaces.value = stripped
+            else:
+                node.whitespaces.value += '\n'
 
     def dedent(self, value: str) -> str:
         if self.config.indent_by and value.endswith(self.config.indent_by):
